@@ -39,6 +39,7 @@ inductive Act where
   | treset (connWin streamWin : Int)                      -- new Transport connection (the endpoint is the client)
   | req (sid : Nat) (kind : Nat)                          -- Transport: application starts a request (0 GET, 1 POST whose body stays open, 2 HEAD)
   | rhdr (sid : Nat) (es : Bool)                          -- Transport: peer sends the response HEADERS
+  | shutdown (sid : Nat)                                  -- server: a body-less request `sid` is left in flight, then graceful shutdown (GOAWAY NO_ERROR)
   | hdr (sid : Nat) (cl : Int) (es : Bool)                -- peer opens a stream; cl = declared Content-Length or -1
   | data (sid : Nat) (len pad : Int) (es : Bool)          -- peer DATA; pad = -1: unpadded, else pad bytes + 1 length byte
   | read (sid : Nat)                                      -- application reads (result in Obs.rd)
@@ -76,6 +77,7 @@ structure Mon where
   started : Bool
   dead : Bool            -- connection-level error / close: nothing further is checked
   transport : Bool       -- role of the endpoint under test: false = server, true = Transport
+  goneAway : Bool        -- server: graceful GOAWAY sent; streams opened afterwards are ignored (their DATA is discarded)
   configured : Int       -- configured connection receive window
   streamInit : Int       -- advertised initial stream window
   conn : Int             -- peer's view of the connection receive window
@@ -86,7 +88,7 @@ structure Mon where
 deriving Repr, DecidableEq
 
 /-- Before any connection: the RFC initial window, nothing sent or received. -/
-def Mon.init : Mon := ⟨false, false, false, 0, 0, initialWindowSize, 0, 0, 0, []⟩
+def Mon.init : Mon := ⟨false, false, false, false, 0, 0, initialWindowSize, 0, 0, 0, []⟩
 
 def findStream (ss : List StreamSt) (sid : Nat) : Option StreamSt :=
   ss.find? (fun s => s.id == sid)
@@ -183,8 +185,17 @@ def actStep (m : Mon) : Act → ActOut
     ⟨{ m with streams := ss }, none⟩
   | .hdr sid cl es =>
     if sid ≤ m.maxSid ∨ sid % 2 = 0 then ⟨{ m with dead := true }, none⟩
+    else if m.goneAway then
+      -- HEADERS above the GOAWAY's last stream id are ignored; DATA on that stream is discarded:
+      -- charged to and refunded on the connection window only
+      ⟨{ m with maxSid := sid,
+                streams := ⟨sid, .closed, m.streamInit, cl, 0, 0, false, false, false⟩ :: m.streams }, none⟩
     else ⟨{ m with maxSid := sid,
                    streams := ⟨sid, if es then .halfRemote else .open_, m.streamInit, cl, 0, 0, false, false, false⟩ :: m.streams }, none⟩
+  | .shutdown sid =>
+    if sid ≤ m.maxSid ∨ sid % 2 = 0 ∨ m.transport ∨ m.goneAway then ⟨{ m with dead := true }, none⟩
+    else ⟨{ m with maxSid := sid, goneAway := true,
+                   streams := ⟨sid, .halfRemote, m.streamInit, -1, 0, 0, false, false, false⟩ :: m.streams }, none⟩
   | .data sid len pad es => dataAct m sid len pad es
   | .read _ => ⟨m, none⟩
   | .bclose sid =>
